@@ -35,8 +35,11 @@ RULE = ("Five sub-checks. uniform_direct: level vector (d 1-3, levels 1-3, <=64 
         "k/16 containing 0 and 1) through build_A_matrix_dimension_wise / build_C_matrix_dimension_wise / "
         "solve_regression_dimension_wise(_smooth). train: Regression(...).train(pct, lmin, lmax[, noisy]) and every "
         "component grid of the returned scheme (scaling to [0.05,0.95], split keeps (x,y) pairs, design matrix, normal "
-        "equations with the reference matrix). train_sa: train_spatially_adaptive(pct, margin, tol, max_evaluations) with "
-        "every call of calculate_operation_dimension_wise observed (grid, surpluses) and checked the same way. opticom: "
+        "equations with the reference matrix). train_sa: train_spatially_adaptive(pct, margin, tol, max_evaluations); one quarter small cases (6-60 drawn samples, "
+        "<=30 evaluations), three quarters bulk cases (2-D, some 3-D, 100-300 seeded uniform samples, 40-100 evaluations, thorough "
+        "200, oscillating / corner-step / corner-peak targets, mostly lambda=0 or matrix I). EVERY call of "
+        "calculate_operation_dimension_wise is observed through an instance-level wrapper and the surpluses the operation holds "
+        "for that level vector when the call returns are checked against the grid passed to that call. opticom: "
         "train or train_spatially_adaptive on generic targets, then optimize_coefficients[_spatially_adaptive] with a "
         "drawn sequence of options 1-3, sum of coefficients after each. Sample coordinates are drawn in the scaled space "
         "(lattice values k/16, the range ends 0.05/0.95, or arbitrary floats; optionally pinned so that lattice values "
@@ -91,15 +94,12 @@ def hat_matrix_1d(nodes, xs, side_by_rounded_value=False):
     B = np.zeros((len(xs), len(nodes) - 2))
     for j in range(1, len(nodes) - 1):
         l, p, r = nodes[j - 1], nodes[j], nodes[j + 1]
-        for s, x in enumerate(xs):
-            if side_by_rounded_value:
-                v1 = 1.0 - (x - p) / (r - p)
-                v2 = 1.0 - (p - x) / (p - l)
-                B[s, j - 1] = (v1 if 0 <= v1 <= 1 else 0.0) + (v2 if 0 <= v2 < 1 else 0.0)
-            elif l < x <= p:
-                B[s, j - 1] = (x - l) / (p - l)
-            elif p < x < r:
-                B[s, j - 1] = (r - x) / (r - p)
+        if side_by_rounded_value:
+            v1 = 1.0 - (xs - p) / (r - p)
+            v2 = 1.0 - (p - xs) / (p - l)
+            B[:, j - 1] = np.where((v1 >= 0) & (v1 <= 1), v1, 0.0) + np.where((v2 >= 0) & (v2 < 1), v2, 0.0)
+        else:
+            B[:, j - 1] = np.where((xs > l) & (xs <= p), (xs - l) / (p - l), 0.0) + np.where((xs > p) & (xs < r), (r - xs) / (r - p), 0.0)
     return B
 
 
@@ -350,8 +350,36 @@ def check_design(out, sub, A, A_cands, tag):
 # ----------------------------------------------------------------------------------------------------------------
 # drivers
 # ----------------------------------------------------------------------------------------------------------------
+TARGET_MODES = ["osc", "osc", "osc", "osc2", "osc2", "corner-peak", "corner-peak", "corner-peak", "corner-step", "step-x", "peak"]
+
+
 def build_data(case):
     d = case["d"]
+    if "gen" in case:
+        # bulk data (100-300 samples): uniform points and a target family chosen so that the error-driven refinement of
+        # train_spatially_adaptive becomes one-sided / uneven between the dimensions; everything is seeded by case["rng"]
+        g = case["gen"]
+        rng = np.random.default_rng(case["rng"])
+        T = rng.random((g["n"], d))
+        corner = np.array(g["corner"], dtype=float)
+        r = np.linalg.norm(T - corner, axis=1)
+        mode = g["mode"]
+        if mode == "osc":
+            y = np.sin(3.0 * T @ np.arange(1, d + 1)) + T[:, 0] ** 2
+        elif mode == "osc2":
+            y = np.sin(rng.uniform(2, 9) * T[:, 0] + rng.uniform(0, 3)) * np.cos(rng.uniform(2, 9) * T[:, -1])
+        elif mode == "corner-step":
+            y = 2.0 * (r < g["width"]) + 0.1 * T[:, 0]
+        elif mode == "corner-peak":
+            y = 3.0 * np.exp(-(r / g["width"]) ** 2) + 0.1 * T[:, 0]
+        elif mode == "step-x":
+            y = 1.0 * (T[:, 0] < g["width"])
+        else:
+            c = rng.random(d)
+            y = 3.0 * np.exp(-np.sum((T - c) ** 2, axis=1) / g["width"] ** 2)
+        y = np.maximum(y + g.get("offset", 0.0), -1.0)            # targets stay >= -1 (F-C20h)
+        aff = np.array(case["aff"], dtype=float).reshape(d, 2)
+        return aff[:, 0] + aff[:, 1] * T, y
     T = np.array(case["pts"], dtype=float).reshape(-1, d)
     if case.get("pin"):
         T[0, :] = 0.05
@@ -561,13 +589,16 @@ def run_train(case):
 
 
 def _observe_sa(op, calls):
+    """instance-level wrapper: record, for EVERY call, the grid that was passed to that call and the surpluses the operation
+    holds for that level vector when the call returns (get_result() is the surpluses dict the combination reads)."""
     orig = op.calculate_operation_dimension_wise
 
     def wrapped(gridPointCoordsAsStripes, grid_point_levels, component_grid):
         r = orig(gridPointCoordsAsStripes, grid_point_levels, component_grid)
         key = tuple(int(v) for v in component_grid.levelvector)
-        calls.append(dict(nodes=[[float(v) for v in s] for s in gridPointCoordsAsStripes], lv=key,
-                          alpha=np.array(op.surpluses[key], dtype=float),
+        stored = op.get_result().get(key)
+        calls.append(dict(nodes=tuple(tuple(float(v) for v in s) for s in gridPointCoordsAsStripes), lv=key,
+                          alpha=None if stored is None else np.array(stored, dtype=float),
                           X=np.array(op.training_data, dtype=float), y=np.array(op.training_target_values, dtype=float)))
         return r
     op.calculate_operation_dimension_wise = wrapped
@@ -590,42 +621,74 @@ def run_train_sa(case):
     if not calls:
         out.bad("%s/observer/no-component-grid-evaluated" % sub, "")
         return out
-    # every observed evaluation: well-formed grid, normal equations; distinct grids additionally: design + smoothing matrix
-    seen = {}
-    for c in calls:
-        seen[(c["lv"], tuple(tuple(n) for n in c["nodes"]))] = c      # last evaluation of each distinct grid
-    todo = list(seen.values())
-    todo.sort(key=lambda c: -int(np.prod([len(n) - 2 for n in c["nodes"]])))
-    todo = todo[:10]       # the largest ten distinct grids (cost bound); every scheme member of the final state below
-    final = {tuple(int(v) for v in g.levelvector) for g in sa.scheme}
-    aniso = nonuni = False
+    lam, matrix = case["lam"], case["matrix"]
+    # (a) EVERY observed solve: the surpluses stored for the level vector when the call returns satisfy the normal equations
+    #     on the grid (stripes) passed to THAT call.  Results are memoised on (grid, surpluses, data), so a re-evaluation of
+    #     an unchanged grid costs nothing, while a stale vector on a changed grid is a new key and is checked.
+    memo = {}
+    design_cache = {}
+    last_nodes = {}
+    aniso = nonuni = same_shape_new_coords = False
     nb = 0
-    for c in todo:
-        nodes = c["nodes"]
-        tag = "lv=%s nodes=%s" % (list(c["lv"]), [[round(v, 5) for v in n] for n in nodes])
+    for i, c in enumerate(calls):
+        nodes, lv = c["nodes"], c["lv"]
+        tag = "solve %d of %d lv=%s nodes=%s" % (i + 1, len(calls), list(lv), [[round(v, 6) for v in n] for n in nodes])
+        prev = last_nodes.get(lv)
+        if prev is not None and prev != nodes and tuple(map(len, prev)) == tuple(map(len, nodes)):
+            same_shape_new_coords = True
+        last_nodes[lv] = nodes
+        if c["alpha"] is None:
+            out.bad("%s/surplus/missing" % sub, tag)
+            continue
         if any(n[0] != 0.0 or n[-1] != 1.0 or any(b <= a for a, b in zip(n, n[1:])) or len(n) < 3 for n in nodes):
             out.bad("%s/grid/stripes-not-sorted-with-boundary" % sub, tag)
             continue
-        A_cands = design_candidates("dimwise", nodes, c["X"])
-        A_ref = A_cands[0][1]
-        nb = max(nb, A_ref.shape[1])
-        aniso = aniso or len(set(tuple(n) for n in nodes)) > 1
+        key = (nodes, c["alpha"].tobytes(), c["X"].shape, c["y"].tobytes())
+        if key in memo:
+            continue
+        memo[key] = True
+        if nodes not in design_cache:
+            design_cache[nodes] = design_candidates("dimwise", [list(n) for n in nodes], c["X"])
+        A_cands = design_cache[nodes]
+        nb = max(nb, A_cands[0][1].shape[1])
+        aniso = aniso or len(set(nodes)) > 1
         nonuni = nonuni or any(len(set(np.round(np.diff(n), 12))) > 1 for n in nodes)
+        check_solution(out, sub, "dimwise", [list(n) for n in nodes], A_cands, c["y"], c["alpha"], lam, matrix, tag)
+    # (b) the matrices the library builds, on the largest distinct grids (cost bound: 6 grids, C only up to 40 points)
+    distinct = sorted(design_cache, key=lambda n: -int(np.prod([len(x) - 2 for x in n])))
+    for nodes in distinct[:6]:
+        nl = [list(n) for n in nodes]
+        tag = "nodes=%s" % [[round(v, 6) for v in n] for n in nl]
         with contextlib.redirect_stdout(io.StringIO()):
-            A = op.build_A_matrix_dimension_wise(nodes, None)
-        check_design(out, sub, A, A_cands, tag)
-        if case["lam"] > 0 and case["matrix"] == "C" and A_ref.shape[1] <= 40:
+            A = op.build_A_matrix_dimension_wise(nl, None)
+        check_design(out, sub, A, design_cache[nodes], tag)
+        if lam > 0 and matrix == "C" and design_cache[nodes][0][1].shape[1] <= 40:
             with contextlib.redirect_stdout(io.StringIO()):
-                C = op.build_C_matrix_dimension_wise(nodes, None)
-            check_gram(out, sub, "dimwise", nodes, C, tag)
-        check_solution(out, sub, "dimwise", nodes, A_cands, c["y"], c["alpha"], case["lam"], case["matrix"], tag)
-    for lv in final:
-        if lv not in op.surpluses:
-            out.bad("%s/surplus/missing" % sub, "lv=%s" % (lv,))
-    out.nontrivial = case["d"] >= 2 and aniso and nonuni and case["lam"] > 0 and case["matrix"] == "C"
-    out.cls("d=%d" % case["d"], "matrix=%s" % case["matrix"], "lambda=0" if case["lam"] == 0 else "lambda>0",
-            "non-uniform-grid" if nonuni else "uniform-grids-only")
-    out.info.update(max_basis=nb, max_dim=case["d"], max_calls=len(calls), max_distinct_grids=len(seen))
+                C = op.build_C_matrix_dimension_wise(nl, None)
+            check_gram(out, sub, "dimwise", nl, C, tag)
+    # (c) final state: every scheme member has surpluses, and they are the ones recorded at its last solve
+    last_alpha = {}
+    for c in calls:
+        last_alpha[c["lv"]] = c["alpha"]
+    for g in sa.scheme:
+        lv = tuple(int(v) for v in g.levelvector)
+        stored = op.get_result().get(lv)
+        if stored is None:
+            out.bad("%s/surplus/missing" % sub, "final scheme member lv=%s" % (lv,))
+        elif lv in last_alpha and last_alpha[lv] is not None and not np.array_equal(np.asarray(stored, dtype=float), last_alpha[lv]):
+            out.bad("%s/surplus/changed-after-last-solve" % sub, "lv=%s" % (lv,))
+    out.nontrivial = case["d"] >= 2 and aniso and nonuni and ((lam > 0 and matrix == "C") or len(calls) >= 20)
+    out.cls("d=%d" % case["d"], "matrix=%s" % matrix, "lambda=0" if lam == 0 else "lambda>0",
+            "non-uniform-grid" if nonuni else "uniform-grids-only",
+            "solves<20" if len(calls) < 20 else ("solves 20-49" if len(calls) < 50 else "solves>=50"))
+    if "gen" in case:
+        out.cls("bulk-data", "target=" + case["gen"]["mode"])
+    if same_shape_new_coords:
+        out.cls("same-shape-different-coordinates-for-a-levelvector")
+    if max(max(c["lv"]) for c in calls) >= 4:
+        out.cls("level>=4-reached")
+    out.info.update(max_basis=nb, max_dim=case["d"], max_solves_per_case=len(calls), max_distinct_grids=len(design_cache),
+                    max_level=max(max(c["lv"]) for c in calls), max_train=len(calls[0]["y"]))
     return _finish(out)
 
 
@@ -768,14 +831,30 @@ def _sa_params(draw, tier):
 
 def train_sa_strategy(tier):
     @st.composite
-    def s(draw):
+    def small(draw):
         d = draw(st.integers(1, 3))
         case = draw(_data(d, 6, 60))
         case.update(_lam_matrix(draw))
         case.update(_sa_params(draw, tier))
         case.update(noisy=draw(st.sampled_from([0, 0, 0, 1])), rng=draw(st.integers(0, 2 ** 20)))
         return case
-    return s()
+
+    @st.composite
+    def bulk(draw):
+        # long refinement histories: 2-D (some 3-D), 100-300 samples, 40-100 evaluations (thorough: up to 200), uneven targets;
+        # mostly lambda = 0 or the identity matrix, where no known smoothing-matrix defect hides a wrong solve
+        d = draw(st.sampled_from([2, 2, 2, 3]))
+        lam, matrix = draw(st.sampled_from([(0.0, "C"), (0.0, "I"), (0.0, "I"), (1e-4, "I"), (0.1, "I"), (1e-6, "I"), (1.0, "I"), (0.1, "C"), (1e-4, "C")]))
+        hi = 100 if tier == "quick" else 200
+        maxev = draw(st.integers(40, 60)) if (lam > 0 and matrix == "C") else draw(st.integers(50, hi))
+        gen = dict(n=draw(st.integers(100, 300)), mode=draw(st.sampled_from(TARGET_MODES)),
+                   corner=[draw(st.integers(0, 1)) for _ in range(d)], width=draw(st.sampled_from([0.15, 0.15, 0.25, 0.35, 0.5])),
+                   offset=draw(st.sampled_from([0.0, 0.0, 0.0, 2.0])))
+        aff = [[draw(st.sampled_from([0.0, -1.0, 2.5, 10.0])), draw(st.sampled_from([1.0, 0.5, 4.0, 100.0]))] for _ in range(d)]
+        return dict(d=d, gen=gen, aff=aff, lam=lam, matrix=matrix, pct=draw(st.sampled_from([0.1, 0.2, 0.3])),
+                    margin=draw(st.sampled_from([0.5, 0.5, 0.7, 0.7, 0.9, 0.9, 1.0])), tol=draw(st.sampled_from([1e-5, 0.0])),
+                    maxev=maxev, noisy=draw(st.sampled_from([0, 0, 0, 1])), rng=draw(st.integers(0, 2 ** 20)))
+    return st.one_of(small(), bulk(), bulk(), bulk())
 
 
 def opticom_strategy(tier):
@@ -829,8 +908,13 @@ def train_fixed():
 def train_sa_fixed():
     base = dict(d=2, pts=_LATTICE9, aff=_IDENT2, pin=False, y=[1., 2., 3., 4., 5., 6., 7., 8., 9.], rng=0, all_defaults=True,
                 pct=0.2, noisy=0, margin=0.5, tol=1e-5)
+    bulk = dict(d=2, gen=dict(n=200, mode="osc", corner=[0, 0], width=0.35, offset=0.0), aff=_IDENT2, pct=0.2, margin=0.7,
+                tol=1e-5, maxev=100, noisy=0, all_defaults=True)
+    peak = dict(bulk, gen=dict(n=200, mode="corner-peak", corner=[0, 0], width=0.15, offset=0.0), margin=0.9)
+    # the three bulk cases re-solve a level vector on a grid of unchanged shape but different coordinates (lmax raised mid-run)
     return [dict(base, lam=0.1, matrix="C", maxev=12), dict(base, lam=0.1, matrix="I", maxev=12),
-            dict(base, lam=0.0, matrix="C", maxev=0)]
+            dict(base, lam=0.0, matrix="C", maxev=0), dict(bulk, lam=0.0, matrix="I", rng=1), dict(bulk, lam=0.0, matrix="C", rng=4),
+            dict(peak, lam=0.0, matrix="I", rng=20)]
 
 
 def opticom_fixed():
@@ -908,15 +992,17 @@ def selftest():
 
 
 SUBS = [
-    # quick: about 3.5 CPU-minutes in total (20-25 s wall on 16 idle cores); the budgets only cut in on a loaded machine
-    Sub("uniform_direct", uniform_direct_strategy, run_uniform_direct, dict(quick=1600, thorough=8000),
-        budget_s=dict(quick=25, thorough=150), fixed_cases=uniform_direct_fixed),
+    # quick: about 4 CPU-minutes in total (about 25 s wall on 16 idle cores); the budgets only cut in on a loaded machine.
+    # train_sa has the largest share: long 2-D refinement histories are the only way to reach a re-solve of a level vector on a
+    # grid of unchanged shape but different coordinates (about 2-4 % of the bulk cases)
+    Sub("uniform_direct", uniform_direct_strategy, run_uniform_direct, dict(quick=960, thorough=8000),
+        budget_s=dict(quick=15, thorough=130), fixed_cases=uniform_direct_fixed),
     Sub("dimwise_direct", dimwise_direct_strategy, run_dimwise_direct, dict(quick=1600, thorough=16000),
         budget_s=dict(quick=15, thorough=100), fixed_cases=dimwise_direct_fixed),
     Sub("train", train_strategy, run_train, dict(quick=1600, thorough=16000),
         budget_s=dict(quick=15, thorough=100), fixed_cases=train_fixed),
-    Sub("train_sa", train_sa_strategy, run_train_sa, dict(quick=800, thorough=6000),
-        budget_s=dict(quick=20, thorough=120), fixed_cases=train_sa_fixed),
+    Sub("train_sa", train_sa_strategy, run_train_sa, dict(quick=1600, thorough=10000),
+        budget_s=dict(quick=30, thorough=140), fixed_cases=train_sa_fixed),
     Sub("opticom", opticom_strategy, run_opticom, dict(quick=800, thorough=6000),
         budget_s=dict(quick=20, thorough=120), fixed_cases=opticom_fixed),
 ]
